@@ -34,4 +34,139 @@ def proj {H S : Type} (t : Nat) : List (Nat × Op H S) → List (Op H S)
   | [] => []
   | (u, op) :: rest => if u = t then op :: proj t rest else proj t rest
 
+/-!
+  ## Documented shared cells
+
+  The manual lists the shared mutable state of the library: the three memory-function pointers
+  (memory.c:31-33, written by `mp_set_memory_functions`, mp_set_fns.c:38-40, read at every allocation),
+  the default mpf precision (mpf/set_dfl_prec.c:25, written by `mpf_set_default_prec`, read by `mpf_init*`),
+  `gmp_errno` (errno.c:32; no function of this library writes it), and the state of the obsolete random
+  functions (`__gmp_rands_initialized`, `__gmp_rands`, rands.c:33-34, written through the `RANDS` macro,
+  gmp-impl.h:1361-1365, by `mpn_random`, `mpn_random2`, `mpf_random2`).
+  They are modelled as cells that every operation may read and write; the theorems in
+  MpirProofs/Props/C15_globals.lean say when a schedule cannot matter.
+-/
+
+/-- the documented shared mutable cells -/
+inductive Cell where
+  | allocFn | reallocFn | freeFn    -- memory.c:31-33
+  | defaultPrec                     -- mpf/set_dfl_prec.c:25
+  | errno                           -- errno.c:32
+  | randsInit | rands               -- rands.c:33-34
+  deriving DecidableEq, Repr
+
+abbrev Cells := Cell → Nat
+
+structure SysC (H S : Type) where
+  heaps : Nat → H
+  shared : S
+  cells : Cells
+
+/-- an operation that may read and write the cells besides its own heap -/
+abbrev COp (H S : Type) := S → Cells → H → H × Cells
+
+/-- one scheduled step: thread `t` executes `op` on the current cells -/
+def stepC {H S : Type} (s : SysC H S) (t : Nat) (op : COp H S) : SysC H S :=
+  { s with heaps := upd s.heaps t (op s.shared s.cells (s.heaps t)).1, cells := (op s.shared s.cells (s.heaps t)).2 }
+
+def runSchedC {H S : Type} (s : SysC H S) : List (Nat × COp H S) → SysC H S
+  | [] => s
+  | (t, op) :: rest => runSchedC (stepC s t op) rest
+
+/-- thread `t` alone: its operations in program order, starting from cells `c` -/
+def runAloneC {H S : Type} (sh : S) (c : Cells) (h : H) : List (COp H S) → H × Cells
+  | [] => (h, c)
+  | op :: rest => runAloneC sh (op sh c h).2 (op sh c h).1 rest
+
+def projC {H S : Type} (t : Nat) : List (Nat × COp H S) → List (COp H S)
+  | [] => []
+  | (u, op) :: rest => if u = t then op :: projC t rest else projC t rest
+
+/-- `op` looks at the cells only through those in `F`, and its effect on the cells in `F` is determined by them -/
+def Respects {H S : Type} (op : COp H S) (F : Cell → Prop) : Prop :=
+  ∀ sh c c' h, (∀ x, F x → c x = c' x) →
+    (op sh c h).1 = (op sh c' h).1 ∧ ∀ x, F x → (op sh c h).2 x = (op sh c' h).2 x
+
+/-- `op` never changes a cell in `F` -/
+def Preserves {H S : Type} (op : COp H S) (F : Cell → Prop) : Prop :=
+  ∀ sh c h x, F x → (op sh c h).2 x = c x
+
+/-! ### the API calls that touch the cells (executable: `cells_trace` op) -/
+
+/-- `__GMPF_BITS_TO_PREC` (gmp-impl.h:3943-3944), for arguments where the addition does not wrap -/
+def bitsToPrec (n : Nat) : Nat := ((if 53 < n then n else 53) + 2 * 64 - 1) / 64
+/-- `__GMPF_PREC_TO_BITS` (gmp-impl.h:3945-3946) -/
+def precToBits (p : Nat) : Nat := p * 64 - 64
+
+inductive ApiCall where
+  | setMemoryFunctions (a r f : Nat)  -- mp_set_fns.c:30-41; 0 = NULL selects the default function (id 0)
+  | getMemoryFunctions                -- mp_get_fns.c:31-39
+  | setDefaultPrec (bits : Nat)       -- mpf/set_dfl_prec.c:28-31
+  | getDefaultPrec                    -- mpf/get_dfl_prec.c:27-30
+  | mpfInit                           -- mpf/init.c:27-33: reads the default precision, then calls the allocate pointer
+  | allocCycle                        -- mpz_init2 / mpz_realloc2 / mpz_clear: one call through each pointer
+  | oldRandom                         -- mpn_random: RANDS (gmp-impl.h:1361-1365) initialises __gmp_rands once
+  | randsClear                        -- RANDS_CLEAR (gmp-impl.h:1368-1375)
+  | readErrno                         -- gmp_errno (errno.c:32)
+  deriving Repr
+
+def setCell (c : Cells) (x : Cell) (v : Nat) : Cells := fun y => if y = x then v else c y
+
+/-- effect on the cells and what the caller observes -/
+def apiStep (c : Cells) : ApiCall → Cells × List Nat
+  | .setMemoryFunctions a r f => (setCell (setCell (setCell c .allocFn a) .reallocFn r) .freeFn f, [])
+  | .getMemoryFunctions => (c, [c .allocFn, c .reallocFn, c .freeFn])
+  | .setDefaultPrec bits => (setCell c .defaultPrec (bitsToPrec bits), [])
+  | .getDefaultPrec => (c, [precToBits (c .defaultPrec)])
+  | .mpfInit => (c, [c .defaultPrec, precToBits (c .defaultPrec), c .allocFn])
+  | .allocCycle => (c, [c .allocFn, c .reallocFn, c .freeFn])
+  | .oldRandom =>
+      if c .randsInit = 0 then (setCell (setCell c .randsInit 1) .rands (c .rands + 1), [c .allocFn, 1])   -- first use allocates the MT state
+      else (setCell c .rands (c .rands + 1), [0, 1])      -- no allocation
+  | .randsClear => (if c .randsInit = 0 then c else setCell c .randsInit 0, [if c .randsInit = 0 then 0 else c .freeFn])
+  | .readErrno => (c, [c .errno])
+
+/-- the cells an API call may write -/
+def apiWrites : ApiCall → List Cell
+  | .setMemoryFunctions _ _ _ => [.allocFn, .reallocFn, .freeFn]
+  | .setDefaultPrec _ => [.defaultPrec]
+  | .oldRandom => [.randsInit, .rands]
+  | .randsClear => [.randsInit]
+  | _ => []
+
+/-- the cells an API call looks at -/
+def apiReads : ApiCall → List Cell
+  | .setMemoryFunctions _ _ _ => []
+  | .getMemoryFunctions => [.allocFn, .reallocFn, .freeFn]
+  | .setDefaultPrec _ => []
+  | .getDefaultPrec => [.defaultPrec]
+  | .mpfInit => [.defaultPrec, .allocFn]
+  | .allocCycle => [.allocFn, .reallocFn, .freeFn]
+  | .oldRandom => [.randsInit, .rands, .allocFn]
+  | .randsClear => [.randsInit, .freeFn]
+  | .readErrno => [.errno]
+
+/-- initial cells of a freshly loaded library: default functions (id 0), 53 bits, nothing else set -/
+def cells0 : Cells := fun x => match x with
+  | .defaultPrec => bitsToPrec 53
+  | _ => 0
+
+def runApi (c : Cells) : List ApiCall → Cells × List Nat
+  | [] => (c, [])
+  | a :: rest => let r := apiStep c a; let q := runApi r.1 rest; (q.1, r.2 ++ q.2)
+
+/-- decode the flat code vector of the `cells_trace` op -/
+def decodeCalls : List Nat → Option (List ApiCall)
+  | [] => some []
+  | 1 :: a :: r :: f :: rest => if a < 3 ∧ r < 3 ∧ f < 3 then (decodeCalls rest).map (ApiCall.setMemoryFunctions a r f :: ·) else none
+  | 2 :: rest => (decodeCalls rest).map (ApiCall.getMemoryFunctions :: ·)
+  | 3 :: b :: rest => if b ≤ 1 <<< 20 then (decodeCalls rest).map (ApiCall.setDefaultPrec b :: ·) else none
+  | 4 :: rest => (decodeCalls rest).map (ApiCall.getDefaultPrec :: ·)
+  | 5 :: rest => (decodeCalls rest).map (ApiCall.mpfInit :: ·)
+  | 6 :: rest => (decodeCalls rest).map (ApiCall.allocCycle :: ·)
+  | 7 :: rest => (decodeCalls rest).map (ApiCall.oldRandom :: ·)
+  | 8 :: rest => (decodeCalls rest).map (ApiCall.randsClear :: ·)
+  | 9 :: rest => (decodeCalls rest).map (ApiCall.readErrno :: ·)
+  | _ => none
+
 end Mpir.Threads
